@@ -222,21 +222,31 @@ def run(ctx, spec):
         ri = float(rng.uniform(0.05, 0.7))
         nr = int(rng.integers(4, 10))
         outer = float(10 ** rng.uniform(-0.3, 1.5))
+        if kk == 0:
+            outer = float(rng.uniform(0.5, 2.0))        # always present: an outer scale of the order of the pupil, where a truncated series fails
         rad = KL.gkl_radii(ri, nr)
         nth = 5 * nr
         fnorm = 0.5 * (-1) / (2 * np.pi * (1 - ri ** 2))
         ang = np.arange(nth) * 2 * np.pi / nth
-        for tag, refD in (("vk", lambda c: vk.structure_function(c, 1.0, outer)), ("kolmogorov", lambda c: 6.8839 * c ** (5 / 3.))):
+        vkD, koD = (lambda c: vk.structure_function(c, 1.0, outer)), (lambda c: 6.8839 * c ** (5 / 3.))
+        # every documented alias of the two statistics
+        for tag, refD in (("vk", vkD), ("kolmogorov", koD), ("vonKarman", vkD), ("karman", vkD), ("kolstf", koD)):
             import warnings
             with warnings.catch_warnings():
                 warnings.simplefilter("ignore")
-                ker = pure_call(ctx, "gkl_kernel", KL.gkl_kernel, ri, nr, rad, tag, outer if tag == "vk" else None)
+                ker = pure_call(ctx, "gkl_kernel", KL.gkl_kernel, ri, nr, rad, tag, outer if refD is vkD else None)
             ctx.case("kl_kernel_content", key=(ri, nr, outer, tag), nontrivial=True, sample={"ri": ri, "nr": nr, "outerscale": outer, "stf": tag})
             i, j = int(rng.integers(0, nr)), int(rng.integers(0, nr))
             sf = np.fft.ifft(ker[i, j, :] / (fnorm * 2 * np.pi / nth)).real
             chord = 0.5 * np.sqrt(np.maximum(rad[i] ** 2 + rad[j] ** 2 - 2 * rad[i] * rad[j] * np.cos(ang), 0))
             want = refD(chord)
-            ctx.close("kl_kernel_structure_function:" + tag, sf, want, 1e-3 * want + 1e-9 * float(want.max()), "gkl_kernel:structure_function:" + tag,
+            kfit = float(sf[int(np.argmax(want))] / want.max())
+            ctx.metric("kl_kernel_shape_residual/max", float(np.abs(sf - kfit * want).max() / want.max()))
+            # one rounded constant is the only licence: the kernel's structure function is k times the model at every chord (measured 4e-14)
+            ctx.close("kl_kernel_structure_function_shape:" + tag, sf, kfit * want, 1e-10 * float(want.max()),
+                      "gkl_kernel:structure_function_shape:" + ("vk" if refD is vkD else "kolmogorov") + ("" if tag in ("vk", "kolmogorov") else ":alias"),
+                      {"ri": ri, "nr": nr, "outerscale": outer, "i": i, "j": j, "stf": tag, "fitted_constant": kfit}, scale=float(want.max()))
+            ctx.close("kl_kernel_structure_function:" + tag, sf, want, 1e-3 * want + 1e-9 * float(want.max()), "gkl_kernel:structure_function:" + ("vk" if refD is vkD else "kolmogorov") + ("" if tag in ("vk", "kolmogorov") else ":alias"),
                       {"ri": ri, "nr": nr, "outerscale": outer, "i": i, "j": j}, scale=float(want.max()))
 
     # positive semi-definiteness of covariance matrices between arbitrary points
